@@ -81,6 +81,7 @@ class Block:
         self.optional = False  # `//@ extract?`: skip the block when the item is absent
         self.decl_only = False  # from `//@ include-external`: emit fns as external_body declarations carrying the spec
         self.diverge = False   # R2b instead of R2 for the panics of this block
+        self.enum_to_counter = False  # R14: `for (i, p) in e.enumerate()` written with an explicit counter
         self.eta = []          # constructor paths to eta-expand where passed as a function value (R9)
         self.eta_found = {}
         self.head_all = None   # head text for every fn of the block (a fn's own `head` is put after it)
@@ -370,6 +371,13 @@ class Assembler:
                             # `//@ eta Path::f -> (r: T) ensures ..`: the text after the path is the contract of the closure
                             # the expansion introduces: `f(|eta_x| -> (r: T) ensures .. { Path::f(eta_x) })`
                             blk.eta.append(d[4:].strip())
+                        elif d == 'enumerate-to-counter':
+                            # R14 (opt-in): `for (IDX, PAT) in EXPR.enumerate() { BODY }` is written out with an explicit counter:
+                            # `let mut __rbv_enum_N: usize = 0; for PAT in EXPR { let IDX = __rbv_enum_N; BODY __rbv_enum_N += 1; }`
+                            # (N = ordinal of the loop in the fn; a trailing `.into_iter()` of EXPR is dropped: `for` applies it).
+                            # That is the definition of Enumerate (count starts at 0, +1 per item); Verus has no specification for
+                            # the adapter.  Refused (anchor lost) when the body contains `continue`.
+                            blk.enum_to_counter = True
                         elif d == 'panics-diverge':
                             # R2b: partial-correctness reading of panic!/unreachable!/..: the macro call is replaced
                             # by a call of the unit's own `rbv_diverge()` (declared external_body, `ensures false`:
@@ -569,6 +577,7 @@ class Assembler:
             # loops, closures, R1, R2 inside the body
             k = a + 1
             loop_no = 0
+            enum_tail_edits = []
             seen_loops = set()
             closure_no = 0
             seen_closures = set()
@@ -604,6 +613,37 @@ class Assembler:
                                 break
                         j += 1
                     header = text[t.start:st[j].start]
+                    if blk.enum_to_counter and t.text == 'for' and re.search(r'\.\s*enumerate\s*\(\s*\)\s*$', header):
+                        # locate `in` at depth 0
+                        kin_, d4 = None, 0
+                        for q in range(k + 1, j):
+                            if st[q].kind == 'punct' and st[q].text in '([{':
+                                d4 += 1
+                            elif st[q].kind == 'punct' and st[q].text in ')]}':
+                                d4 -= 1
+                            elif d4 == 0 and st[q].kind == 'ident' and st[q].text == 'in':
+                                kin_ = q
+                                break
+                        ok_ = (kin_ is not None and st[k + 1].text == '(' and st[kin_ - 1].text == ')' and st[k + 2].kind == 'ident'
+                               and st[k + 3].text == ',' and match_close(st, k + 1) == kin_ - 1
+                               and [x.text for x in st[j - 4:j]] == ['.', 'enumerate', '(', ')'])
+                        jc_ = match_close(st, j)
+                        if ok_ and any(x.kind == 'ident' and x.text == 'continue' for x in st[j + 1:jc_]):
+                            raise AnchorLost('R14: the body of the enumerate loop #%d of fn %s contains `continue` (%s)' % (loop_no, tgt.name if tgt else '?', blk.relpath))
+                        if ok_:
+                            idx_name = st[k + 2].text
+                            cnt = '__rbv_enum_%d' % loop_no
+                            pat_text = text[st[k + 4].start:st[kin_ - 2].end]
+                            edits.append((t.start, t.start, 'let mut %s: usize = 0;\n' % cnt))
+                            edits.append((st[k + 1].start, st[kin_ - 1].end, pat_text))
+                            cut_from = j - 4
+                            if [x.text for x in st[j - 8:j - 4]] == ['.', 'into_iter', '(', ')']:
+                                cut_from = j - 8
+                            edits.append((st[cut_from].start, st[j - 1].end, ''))
+                            edits.append((st[j].end, st[j].end, ' let %s = %s;' % (idx_name, cnt)))
+                            enum_tail_edits.append((st[jc_].start, st[jc_].start, ' %s += 1; ' % cnt))
+                            self.rewrites.append('R14 %s:%d for (%s, ..) in ...enumerate() written with the explicit counter %s'
+                                                 % (blk.relpath, src.line_of(t.start), idx_name, cnt))
                     ikey = _loop_match(tgt.loop_iters, loop_no, header) if tgt else None
                     if ikey is not None:
                         # R7: name the Verus ghost iterator of a `for` loop: `for p in e` -> `for p in NAME: e`
@@ -854,6 +894,7 @@ class Assembler:
                     k = kc + 1
                     continue
                 k += 1
+            edits.extend(enum_tail_edits)   # after the unit's own loop-tail texts (same offset: emitted in this order)
             for ctor_full in blk.eta:
                 # `//@ eta Path::f`                       plain eta expansion
                 # `//@ eta Path::f -> (r: T) ensures ..`   with a full closure contract written in the unit
